@@ -1,6 +1,7 @@
 use crate::core::{Ctx, Report};
 use serde_json::Value;
 
+pub mod c01;
 pub mod c02;
 pub mod c06;
 pub mod c09;
@@ -10,6 +11,7 @@ pub mod e2e_paths;
 
 pub fn run(ctx: &Ctx) -> Option<Report> {
     match ctx.id.as_str() {
+        "C01" => Some(c01::run(ctx)),
         "C02" => Some(c02::run(ctx)),
         "C06" => Some(c06::run(ctx)),
         "C09" => Some(c09::run(ctx)),
